@@ -727,6 +727,20 @@ pub fn run(ctx: &mut Ctx) {
             }
         }
     }
+    // the source creates a group below an existing one and moves an existing entry (or group) into the new group, while the
+    // destination deletes, renames or moves that existing group: the new group has no tombstone of its own
+    for g in [3u64, 4] {
+        for ea in [vec![Edit::DeleteGroup(g, true)], vec![Edit::RenameGroup(g)], vec![Edit::MoveGroup(g, if g == 3 { 4 } else { 2 })], vec![]] {
+            for mv in [Edit::MoveEntry(10, 2000), Edit::MoveEntry(11, 2000), Edit::MoveGroup(if g == 3 { 4 } else { 3 }, 2000)] {
+                let eb = vec![Edit::AddGroup(g), mv.clone()];
+                for b0 in [102i64, 300] {
+                    if !run_pair_at(ctx, &base, &ea, &eb, vec!["move-into-new-group".into()], b0) {
+                        ctx.out_flush_and_exit();
+                    }
+                }
+            }
+        }
+    }
     // a chain of nested empty groups, all deleted on the source side, tombstones listed outermost first or innermost first:
     // the work queue of merge_deletions has to come back to the outer groups again and again
     for d in 2..=ctx.count(6, 9) as u64 {
